@@ -129,7 +129,8 @@ CHECKS = {
         "<= 3 (quick) / 4 (thorough) with out-of-range and negative slice arguments, strides to +-3, rc, to_rna/to_dna, copy, and by "
         "simulation walks to length 10. Every emitted transition is replayed on old Sequence, new Sequence and collection-backed "
         "SeqDataView objects (str, len, iteration, parent_coordinates under the calibrated containment rule, annotation offset), and in "
-        "every reached state ~100 read-only methods are compared with the same method on a fresh sequence built from str(view).",
+        "every reached state ~100 read-only methods are compared with the same method on a fresh sequence built from str(view)."
+        " Further modules: SeqViewRead.tla (what a view answers: counts, k-mers, windows, gap queries, comparison, conversions, translation link to GeneticCode.tla) and SeqViewColl.tla (collections whose members are views of one parent).",
         design_ref="DESIGN.md section 2 / C01",
         note="Trusted: TLC, harness projection. DNA/RNA only (no protein/text); lengths > 4 only by walks; annotation/plotting methods and "
         "to_rich_dict (C10) excluded from the method comparison; no code->spec trace validation for this property.",
@@ -142,7 +143,8 @@ CHECKS = {
         "inverse/covered/shadow/reversal/composition/gaps on the position sequence; TLC checks the algebraic laws and InParent on all "
         "strings <= 6 (quick) / 8 (thorough). Every emitted case is executed on real maps built through 6 constructors and the full "
         "description is compared; maps recorded at real call sites (Aligned slicing/rc/concat, feature projection, dotplot) are validated "
-        "against IndelMapTrace.tla.",
+        "against IndelMapTrace.tla."
+        " Further: every query leaves the receiver unchanged (histories on one derived object); IndelMapUse.tla (CIGAR encode / decode / slice, Aligned = map x view: slice, rc, feature indexing, unknown termini, JSON); per-case CPU / memory guards so that a corrupted shared cache ends in a verdict.",
         design_ref="DESIGN.md section 2 / C08",
         note="Trusted: TLC, harness projection. Slice bounds beyond +-len, with_termini_unknown, FeatureMap absolute/relative position and "
         "zero-length spans not covered.",
@@ -156,7 +158,8 @@ CHECKS = {
         "boundary of real writes (audit-hook injection in child processes; kill and OSError at each boundary; plain/gz/bz2/zip targets; "
         "existing/absent destination; formatter failures) is executed and the observed (dest, leftovers) judged by the spec's verdict "
         "table; each child's call log is validated by Trace_AtomicWrite.tla. AtomicWriteResume.tla models apply_to interruption and "
-        "re-run; every prefix / kill point of real runs on a DataStoreDirectory is replayed.",
+        "re-run; every prefix / kill point of real runs on a DataStoreDirectory is replayed."
+        " Further: a failing close() of the staged file loses the unflushed tail (CloseFails); a .zip destination is a sequence of members (OldNew / Partial rejected; in-place append is a rejected configuration); interruptions that are BaseException but not Exception (KeyboardInterrupt via real SIGINT, SystemExit) at every boundary.",
         design_ref="DESIGN.md section 2 / C19",
         note="Trusted: TLC, sys.addaudithook as the boundary observer (write/close faults injected by a proxy around open_). Power-loss "
         "durability (fsync), partial flush inside one C-level write, two injections per run and parallel apply_to not covered.",
@@ -168,7 +171,8 @@ CHECKS = {
         "with_new_column (TLC checks StableSortLaw, JoinLaw, ...); TableText.tla models csv.writer, separator_format and the csv reader "
         "at character level (TLC proves CsvWriterLossless, gives the expected counterexample for separator_format). All emitted tables x "
         "arguments are executed with real Table objects, and typed tables are written (tsv/csv/gz/json/pickle, to_csv/to_tsv) and "
-        "reloaded, comparing header, cell text and numeric restoration.",
+        "reloaded, comparing header, cell text and numeric restoration."
+        " Further: TableObject.tla (histories on one table: set/clear index, assign / delete column interleaved with array / to_dict / write+load), operands of appended / joined enumerated over index placements and column orders with rows compared as records, non-finite and extreme numeric cells at every row position, the writer= path.",
         design_ref="DESIGN.md section 2 / C20",
         note="Trusted: TLC, harness instantiation of cells. Tables <= 3 columns x <= 4 rows (plus 16-100 row sort cases); index_name, "
         "titles/legends, display formats, \\r in cells, custom reader/writer callbacks not covered.",
@@ -196,7 +200,8 @@ CHECKS = {
         "accounting, first-failing-step naming, NotCompleted pass-through and termination for all outcome vectors and all completion "
         "orders within the bounds. Serial behaviours are replayed on real composed apps over five writer/store combinations; every "
         "feasible completion order for n<=4, W<=3 is FORCED on the real loky-backed apply_to with gate files; free-running parallel "
-        "runs are validated against Trace_ComposedApp.tla.",
+        "runs are validated against Trace_ComposedApp.tla."
+        " Further: ArgPristine (a function-style step's constructor arguments are as constructed at every call; Isolated=FALSE refuted by TLC), ComposedAppRuns.tla (histories of apply_to runs on one store: logger, resume, nothing duplicated), ComposedAppLinks.tla (composition links, type refusal, disconnect, re-composition), input naming schemes (suffix / prefix / dotted identifiers).",
         design_ref="DESIGN.md section 2 / C14",
         note="Trusted: TLC, gate-file scheduler (orders observed through the output store, never wall clock). MPI executor, progress UI, "
         "write_tabular, > 4 inputs or > 3 workers not covered.",
@@ -211,7 +216,8 @@ CHECKS = {
         "computes the exact count matrix and p over alignments with gaps/ambiguities (symmetry, zero diagonal, column-order freedom, "
         "duplicate-shortcut soundness checked by TLC); the published JC69/TN93/paralinear/LogDet formulas are applied to TLC's counts in "
         "the harness and compared with every real entry point. Real nj() runs on non-additive matrices are validated join-by-join by "
-        "Trace_NJ.tla.",
+        "Trace_NJ.tla."
+        " Further: DistanceCalls.tla (builders are pure over histories of calls on one DistanceMatrix / DictArray object), exact classification of each estimator's domain (defined | boundary | outside | undefined) from integer log-argument numerators, with boundary-hitting alignment families.",
         design_ref="DESIGN.md section 2 / C15",
         note="Trusted: TLC; evaluation of ln/det in the estimators is float work in the harness on TLC's exact counts. Protein/RNA "
         "moltypes, variances, gnj with keep > 1 beyond 5 tips, and the open cases listed in the evidence (zero frequencies, pseudo-count "
@@ -226,7 +232,8 @@ CHECKS = {
         "laws over all small layouts. Histories (paths of the transition graph) are executed in lock-step on real Alignment and "
         "ArrayAlignment objects and names/to_dict/len/get_gapped_seq must equal the spec successor; 20 read-only methods are compared "
         "with a fresh object built from the rows; seeded random executions (DNA/RNA/protein, up to 7 operations, arbitrary arguments) "
-        "are validated by Trace_Alignment.tla.",
+        "are validated by Trace_Alignment.tla."
+        " ConcatSlices(a,b,c,d) concatenates two slices of the SAME alignment object in any order after any history (rc, slice, to_rna), for both alignment classes.",
         design_ref="DESIGN.md section 2 / C03",
         note="Trusted: TLC, harness instantiation of cell classes with concrete symbols. '?'/'.' gap symbols, annotations, add_seqs, "
         "omit_gap_seqs/runs, new_alignment classes not covered; strided slices on Alignment raise by design (unsupported).",
@@ -240,7 +247,8 @@ CHECKS = {
         "Every abstract tree (all shapes on <= 4 tips quick / <= 5 thorough + sampled 6) is rebuilt on real PhyloNodes for three name "
         "classes (plain, quoting-needed, newick metacharacters) and results, receiver-unmodified and aliasing are judged. TreeDist.tla "
         "defines RF / matching distances independently (set difference, minimum over bijections); all ordered pairs on 4 (5) tips are "
-        "compared. Recorded executions on random 7-12 tip trees are validated by TreeOpsTrace.tla.",
+        "compared. Recorded executions on random 7-12 tip trees are validated by TreeOpsTrace.tla."
+        " Further modules: TreeDistHist.tla (distances over histories on one object), Query (distance, lca, connecting edges, edge-name scopes with outgroup), TreeOpsConsensus.tla (majority-rule consensus as a function of split weights), node names as state (NamesUnique, CreatedNameIsFresh) with auto-named and edge-like names, JSON / newick round trips anywhere in a history.",
         design_ref="DESIGN.md section 2 / C09",
         note="Trusted: TLC, harness projection (tips, splits, get_distances). Non-dyadic branch lengths, keep_root=True, file write/load, "
         "names starting and ending with a quote, Lin-Rajan-Moret on unequally resolved trees not covered.",
@@ -252,7 +260,8 @@ CHECKS = {
         "complement definitions independently of both copies in the repository; TLC checks RcInvolution, ComplementLaws, "
         "EncodeResolveInverse, SixFrameLaw, StopLaws. All 64 codons x 27 codes, every base string up to length 6 (7) x frames x strands, "
         "a stop-rich family x the stop-option matrix, sequence pairs and all IUPAC symbols/strings are fed to every entry point (old and "
-        "new GeneticCode, old/new DNA and RNA Sequence, collections/alignments, app.translate) and must agree with the spec.",
+        "new GeneticCode, old/new DNA and RNA Sequence, collections/alignments, app.translate) and must agree with the spec."
+        " Further: a long-sequence family (255 / 256 / 257 / 65535 / 65536 codons) emitted by TLC itself; GeneticCodeHistory.tla (HistoryIndependent: answers of translate / complement / what_ambiguity / resolve do not depend on what other moltypes were asked before, replayed in pristine forked processes).",
         design_ref="DESIGN.md section 2 / C12",
         note="Trusted: TLC and the transcription of the published NCBI/IUPAC tables in the spec. best_frame / select_translatable, gapped or "
         "ambiguous codons, protein X, sequences longer than 7 not covered; slow entry points run on a seeded stratified sample of the long strings.",
@@ -265,7 +274,8 @@ CHECKS = {
         "whole interval lattice plus QueryDistributesOverUnion, SubsetIdempotent. One-record databases over every span list x every "
         "query combination x window kind, and histories closed under subset/union/update/deepcopy/pickle/json/write+open, are executed "
         "on BasicAnnotationDb, GffAnnotationDb (via gff_parser text) and GenbankAnnotationDb; random call sequences are validated by "
-        "Trace_AnnotDb.tla.",
+        "Trace_AnnotDb.tla."
+        " Further modules: AnnotDbProv.tla (provenance of operands: memory | file | copy of a file-bound db; update / union in both directions), AnnotDbLoad.tla (GFF3 text -> records: multi-line features, block boundaries, seqid filters, inert extra attributes), QueryList / CountDistinct / Describe.",
         design_ref="DESIGN.md section 2 / C17",
         note="Trusted: TLC, sqlite. on_alignment, strand=None, parent/child queries, update_record_spans, LIKE wildcards, empty windows with "
         "allow_partial not covered.",
@@ -279,7 +289,8 @@ CHECKS = {
         "orientation and the status of every get_features window (with / without partial matches). AnnotationAln.tla does the same for "
         "rows of an alignment, alignment-level features and projection through gapped rows. Every state and transition is rebuilt on old "
         "and new Sequence (features added directly, on offsets, on slices, or through a BasicAnnotationDb) and on old-style Alignment, "
-        "and queries, coordinates, strand and feature slices are compared.",
+        "and queries, coordinates, strand and feature slices are compared."
+        " Further modules: AnnotationHistory.tla (all interleavings of add_feature / slice / rc / copy / degap / to_rna over objects sharing a db), AnnotationNames.tla (sequences, feature names and biotypes that are look-alikes under SQL LIKE / case), feature algebra and masking on every view.",
         design_ref="DESIGN.md section 2 / C04",
         note="Trusted: TLC, harness projection. Strided / negative-argument views, add_feature on rc views, get_children/get_parent, "
         "union/shadow, ArrayAlignment and new-style collections, offsets on alignment rows not covered; no code->spec trace validation.",
@@ -293,7 +304,8 @@ CHECKS = {
         "proving Parse(Write(x)) = Trunc(x) on clean names and characterising where it fails; SeqFormatsGb.tla models GenBank flat files. "
         "All emitted (text, chunk) pairs and name/sequence families are executed on the real iter_splitlines/iter_line_blocks, writers "
         "(plain/gz/bz2), loaders and up to 28 parser variants per format (bytes vs line based, strict/non-strict, streamed with several "
-        "chunk sizes), plus JSON round trips and minimal/rich GenBank parsers.",
+        "chunk sizes), plus JSON round trips and minimal/rich GenBank parsers."
+        " Further: SeqFormatsHist.tla (the loader's configuration as state: a load with options must not affect later loads; pristine forked processes), ragged collections around the wrap width incl. the writers' default width, names with interior runs of blanks / tabs.",
         design_ref="DESIGN.md section 2 / C06",
         note="Trusted: TLC, harness instantiation of character classes. clustal/nexus/xmfa/msf (no writer), interleaved PHYLIP, chardet on "
         "non-ASCII input, lower-case residues, all-blank names not covered; zero-length sequences have a listed open outcome.",
